@@ -28,6 +28,26 @@ def parseSeq (s : String) : Option (List (List (List UInt8))) :=
       if f.startsWith "x" then parseHex (f.drop 1).toString
       else f.toNat?.map (fun t => sendMsg t 2 [123, 125])
 
+def handlePipe (s : String) (impl : String) : String :=
+  -- the parent performs each requested step in the order requested and acknowledges it before it looks at the next
+  -- request — also when the child does not wait: a drain in progress is finished first
+  match (s.splitOn ",").mapM String.toNat? with
+  | some ts =>
+    let evs := ts.flatMap fun t => parentStep t
+    let acts := evs.flatMap fun e => match e with
+      | .act n => if n == "DrainListeners" then ["a:DrainListeners", "e:DrainListeners"] else [s!"a:{n}"]
+      | .reply _ => []
+    let reps := evs.filterMap fun e => match e with | .reply t => some s!"r:{t}" | .act _ => none
+    let dash (l : List String) := if l.isEmpty then "-" else ",".intercalate l
+    let m := s!"acts={dash acts} replies={dash reps}"
+    let spEvs := ts.flatMap specStep
+    let spActs := spEvs.flatMap fun e => match e with
+      | .act n => if n == "DrainListeners" then ["a:DrainListeners", "e:DrainListeners"] else [s!"a:{n}"]
+      | .reply _ => []
+    let spReps := spEvs.filterMap fun e => match e with | .reply t => some s!"r:{t}" | .act _ => none
+    verdict impl m s!"acts={dash spActs} replies={dash spReps}"
+  | none => "bad-op"
+
 def handle (kind : String) (args : List String) (impl : String) : String :=
   match kind, args with
   | "c17.read", [h] =>
@@ -48,25 +68,8 @@ def handle (kind : String) (args : List String) (impl : String) : String :=
         | _ => [])))
       verdict impl m sp
     | none => "bad-op"
-  | "c17.pipe", [s] =>
-    -- the parent performs each requested step in the order requested and acknowledges it before it looks at the next
-    -- request — also when the child does not wait: a drain in progress is finished first
-    match (s.splitOn ",").mapM String.toNat? with
-    | some ts =>
-      let evs := ts.flatMap fun t => parentStep t
-      let acts := evs.flatMap fun e => match e with
-        | .act n => if n == "DrainListeners" then ["a:DrainListeners", "e:DrainListeners"] else [s!"a:{n}"]
-        | .reply _ => []
-      let reps := evs.filterMap fun e => match e with | .reply t => some s!"r:{t}" | .act _ => none
-      let dash (l : List String) := if l.isEmpty then "-" else ",".intercalate l
-      let m := s!"acts={dash acts} replies={dash reps}"
-      let spEvs := ts.flatMap specStep
-      let spActs := spEvs.flatMap fun e => match e with
-        | .act n => if n == "DrainListeners" then ["a:DrainListeners", "e:DrainListeners"] else [s!"a:{n}"]
-        | .reply _ => []
-      let spReps := spEvs.filterMap fun e => match e with | .reply t => some s!"r:{t}" | .act _ => none
-      verdict impl m s!"acts={dash spActs} replies={dash spReps}"
-    | none => "bad-op"
+  | "c17.burst", [s] => handlePipe s impl
+  | "c17.pipe", [s] => handlePipe s impl
   | _, _ => "bad-op"
 
 end SamVerif.Drive.C17
